@@ -377,7 +377,8 @@ class WorldA:
         precompiled: Any = None
         scs = [s.sc for s in srcs]  # type: ignore[union-attr]
         ccs = [s.cc for s in srcs]  # type: ignore[union-attr]
-        if opr == "multiply" and len(scs[0].layers) * len(scs[1].layers) > MAX_LAYERS:
+        if (opr == "multiply" or spec.get("pre") == "multiply") and \
+                len(scs[0].layers) * len(scs[1].layers) > MAX_LAYERS:
             # bound of the workload (DESIGN.md 2.4): unfolded products of concatenations reach
             # thousands of layers and a minute per run; every reference recompilation pays again
             c.excluded = "bound:too-many-layers"
@@ -413,6 +414,19 @@ class WorldA:
                         except SimFault:
                             self.tr.count("fault:fired:nested-block-exit")
                             self.tr.count("fault:fired")
+                    pre = spec.get("pre")
+                    if pre is not None:
+                        # an intermediate result that is *not* compiled on its own: compiling the
+                        # outer circuit makes the compiler walk the pipeline (operands first)
+                        if pre == "multiply":
+                            scs = [SF.multiply(scs[0], scs[1])]
+                        elif pre == "conjugate":
+                            scs = [SF.conjugate(scs[0])]
+                        elif pre == "concatenate":
+                            scs = [SF.concatenate(scs)]
+                        else:
+                            raise HarnessError(f"unknown inner operator {pre}")
+                        self.tr.count(f"derive:pipeline-intermediate:{pre}")
                     if opr == "integrate":
                         sc_scope = None if spec.get("scope") is None else Scope(spec["scope"])
                         c.sc = SF.integrate(scs[0], scope=sc_scope)
@@ -822,6 +836,13 @@ class WorldA:
         scs = [rebuilt[s].sc for s in oc.srcs]
         opr = spec["opr"]
         with self.ctx:
+            pre = spec.get("pre")
+            if pre == "multiply":
+                scs = [SF.multiply(scs[0], scs[1])]
+            elif pre == "conjugate":
+                scs = [SF.conjugate(scs[0])]
+            elif pre == "concatenate":
+                scs = [SF.concatenate(scs)]
             if opr == "integrate":
                 return SF.integrate(scs[0], scope=None if spec.get("scope") is None else Scope(spec["scope"]))
             if opr == "multiply":
@@ -981,8 +1002,8 @@ class WorldA:
 
     def _relation(self, c: Circ, dcc: Any) -> bool | None:
         spec = c.spec
-        if spec is None:
-            return None
+        if spec is None or spec.get("pre") is not None:
+            return None  # composite derivations have no single-operator relation (I1 / I2 apply)
         opr = spec["opr"]
         srcs = [self.get(s) for s in c.srcs]
         if any(s is None for s in srcs):
